@@ -129,6 +129,57 @@ def run_history(item, timeout=60):
     return {"id": item["id"], "prog": item["prog"], "ev": ev}
 
 
+def fork_call(fn, args, timeout=120):
+    """Runs fn(*args) in a forked child of this (import-only) process and returns its JSON-serialisable result, or None
+    if the child hung or died.  Every call starts from the state of a freshly imported library."""
+    import rtflite  # noqa: F401
+    r, w = os.pipe()
+    pid = os.fork()
+    if pid == 0:
+        try:
+            os.close(r)
+            res = fn(*args)
+            with os.fdopen(w, "w") as f:
+                json.dump(res, f)
+        except BaseException as ex:  # noqa
+            try:
+                os.write(w, json.dumps({"child_error": repr(ex)[:300]}).encode())
+            except Exception:
+                pass
+        finally:
+            os._exit(0)
+    os.close(w)
+    buf = b""
+    t0 = time.time()
+    ok = True
+    while True:
+        left = timeout - (time.time() - t0)
+        if left <= 0:
+            ok = False
+            break
+        rl, _, _ = select.select([r], [], [], left)
+        if not rl:
+            ok = False
+            break
+        chunk = os.read(r, 65536)
+        if not chunk:
+            break
+        buf += chunk
+    os.close(r)
+    if not ok:
+        try:
+            os.kill(pid, signal.SIGKILL)
+        except Exception:
+            pass
+    os.waitpid(pid, 0)
+    if ok and buf:
+        try:
+            return json.loads(buf.decode())
+        except Exception:
+            return None
+    return None
+
+
 _FRESH_CODE = r"""
 import sys, json, hashlib
 sys.path.insert(0, %r); sys.path.insert(0, %r)
